@@ -41,6 +41,32 @@ func spawnsIn(fn *ssa.Function) []spawn {
 					sp := spawn{In: in, Group: x.Call.Args[0]}
 					if mc, ok := x.Call.Args[1].(*ssa.MakeClosure); ok {
 						sp.MC, sp.Closure = mc, mc.Fn.(*ssa.Function)
+					} else if fc, ok := x.Call.Args[1].(*ssa.Call); ok {
+						// eg.Go(worker(name, service)): a local closure factory called with per-iteration values. The
+						// spawned body is the closure the factory returns; what it captures from the factory's own
+						// parameters is private to the call, what it captures through the factory's free variables is
+						// what the factory captured here.
+						if fmc, ok := fc.Call.Value.(*ssa.MakeClosure); ok {
+							factory := fmc.Fn.(*ssa.Function)
+							var inner *ssa.MakeClosure
+							rets := returnsOf(factory)
+							if len(rets) == 1 && len(rets[0].Results) == 1 {
+								inner, _ = rets[0].Results[0].(*ssa.MakeClosure)
+							}
+							if inner != nil {
+								composed := make([]ssa.Value, len(inner.Bindings))
+								for i, bv := range inner.Bindings {
+									if ffv, isFV := bv.(*ssa.FreeVar); isFV {
+										for j, f2 := range factory.FreeVars {
+											if f2 == ffv && j < len(fmc.Bindings) {
+												composed[i] = fmc.Bindings[j]
+											}
+										}
+									}
+								}
+								sp.MC, sp.Closure = &ssa.MakeClosure{Fn: inner.Fn, Bindings: composed}, inner.Fn.(*ssa.Function)
+							}
+						}
 					}
 					out = append(out, sp)
 				}
